@@ -39,6 +39,12 @@ type KnownFinding struct {
 }
 
 func main() {
+	// the repository needs go >= 1.26: make the pre-installed go1.26.8 the `go` that go/packages runs
+	os.Setenv("PATH", "/opt/veriftools/go1.26.8/bin:"+os.Getenv("PATH"))
+	os.Setenv("GOFLAGS", "-mod=mod")
+	os.Setenv("GOPROXY", "off")
+	os.Setenv("GOSUMDB", "off")
+	os.Setenv("GOTOOLCHAIN", "local")
 	if len(os.Args) < 2 {
 		fmt.Fprintln(os.Stderr, "usage: govc check|fn|selftest ...")
 		os.Exit(2)
@@ -102,8 +108,25 @@ func cmdFn(args []string) int {
 	timeout := fs.Int("timeout", 10, "")
 	keep := fs.Bool("keep", false, "keep smt files")
 	verbose := fs.Bool("v", false, "")
+	mfile := fs.String("mfile", "", "mutate: file (relative to repo)")
+	mfind := fs.String("mfind", "", "mutate: text to find")
+	mrepl := fs.String("mrepl", "", "mutate: replacement")
 	fs.Parse(args)
-	g, err := loadProgram(*repo, strings.Split(*pkg, ","), nil)
+	var overlay map[string][]byte
+	if *mfile != "" {
+		path := filepath.Join(*repo, *mfile)
+		src, err := os.ReadFile(path)
+		if err != nil {
+			fmt.Fprintln(os.Stderr, err)
+			return 2
+		}
+		if n := strings.Count(string(src), *mfind); n != 1 {
+			fmt.Fprintf(os.Stderr, "mutation pattern occurs %d times\n", n)
+			return 2
+		}
+		overlay = map[string][]byte{path: []byte(strings.Replace(string(src), *mfind, *mrepl, 1))}
+	}
+	g, err := loadProgram(*repo, strings.Split(*pkg, ","), overlay)
 	if err != nil {
 		fmt.Fprintln(os.Stderr, err)
 		return 2
